@@ -65,6 +65,8 @@ func corpus() []*lang.Node {
 		C(S("call"), S("add"), I(1), I(2)), C(C(S("call")), S("add"), I(1), I(2)),
 		L([]string{"a"}, C(S("collection"), S("a"))), L([]string{"f"}, C(S("call"), S("f"))),
 		C(L([]string{"x"}, C(S("pair"), S("x"), C(S("collection")))), I(1)),
+		// fixed C21-convert-interface-query
+		C(S("call"), C(S("first"), C(S("pair"), lang.QL(&lang.Q{Op: "keyed", A: "a"}), I(1)))),
 	}
 }
 
